@@ -99,17 +99,34 @@ def guarded_brackets(chk: Check, rule: str, functions: list[str], floor: int = 1
                     if st is None:
                         continue
                     A, B, pol = st
-                    # the search is entered on the sign-change branch only
+                    a_, b_ = a, b
                     if g.reaches(g.branch(t, not pol), node, avoid=lambda q, t=t: q is t):
-                        continue
+                        # the search is shared by both branches (`hi = b if sign change else extremum; root_scalar(f, [a, hi])`): on the path
+                        # through the sign-change branch the bracket ends are whatever that branch assigns to them
+                        inside = g.reachable(next(iter(g.branch(t, pol)), None), avoid=lambda q, t=t: q is t, include_start=True) if g.branch(t, pol) else set()
+                        other = set()
+                        for s0 in g.branch(t, not pol):
+                            other |= g.reachable(s0, avoid=lambda q, t=t: q is t, include_start=True)
+                        only = {q for q in inside if q not in other}
+                        sub = []
+                        for e in (a, b):
+                            v = e
+                            if isinstance(e, ast.Name):
+                                ds = [d for d in g.reaching_defs(node, e.id) if d in only and isinstance(d, ast.Assign) and len(d.targets) == 1 and isinstance(d.targets[0], ast.Name)]
+                                if len(ds) == 1:
+                                    v = ds[0].value
+                            sub.append(v)
+                        if sub[0] is a and sub[1] is b:
+                            continue            # this test does not select the bracket of this search
+                        a_, b_ = sub
                     xa, xb = _value_of(g, t, A, fname), _value_of(g, t, B, fname)
                     if xa is None or xb is None:
                         continue
                     # no re-definition of the tested points between the test and the search is checked by spelling + reaching definitions
                     count += 1
-                    ok = {nf(xa), nf(xb)} == {nf(a), nf(b)}
+                    ok = {nf(xa), nf(xb)} == {nf(a_), nf(b_)}
                     chk.ob(rule, sc.where(c), f"{sc.qual}: the root of `{fname}` is bracketed between the two points whose sign change was tested "
-                           f"(`{n(t)[:70]}`)", ok, f"tested f({n(xa)}), f({n(xb)}); bracket [{n(a)}, {n(b)}]", key=f"guarded-bracket|{sc.qual}|{fname}")
+                           f"(`{n(t)[:70]}`)", ok, f"tested f({n(xa)}), f({n(xb)}); bracket [{n(a_)}, {n(b_)}]", key=f"guarded-bracket|{sc.qual}|{fname}")
     if count < floor:
         raise AnchorMissing(f"rule {rule}: only {count} sign-tested bracketed root searches found (floor {floor})")
 
@@ -554,16 +571,29 @@ def bracket_offsets_inward(chk: Check, rule: str, modules: tuple, floor: int = 1
     def tiny(c) -> bool:
         return isinstance(c, ast.Constant) and isinstance(c.value, (int, float)) and not isinstance(c.value, bool) and 0 < abs(c.value) <= 1e-3
 
+    def const(g, at, c):
+        """the operand as a tiny literal: written in place, or a local / module constant bound once to one"""
+        if tiny(c):
+            return c
+        if isinstance(c, ast.Name):
+            ds = [d for d in g.reaching_defs(at, c.id)]
+            if len(ds) == 1 and isinstance(ds[0], ast.Assign) and tiny(ds[0].value):
+                return ds[0].value
+            if len(ds) == 1 and ds[0] is CFG.ENTRY and c.id in module_consts:
+                return module_consts[c.id]
+        return None
+
     def offsets(g, at, e, depth=0) -> list:
         """[(sign, constant, statement/expression)] of the tiny offsets applied at top level to the value of e"""
         out = []
         if depth > 3:
             return out
         if isinstance(e, ast.BinOp) and isinstance(e.op, (ast.Add, ast.Sub)):
-            if tiny(e.right):
-                out.append((+1 if isinstance(e.op, ast.Add) == (e.right.value > 0) else -1, e.right.value, e))
-            elif tiny(e.left) and isinstance(e.op, ast.Add):
-                out.append((+1 if e.left.value > 0 else -1, e.left.value, e))
+            r_, l_ = const(g, at, e.right), const(g, at, e.left)
+            if r_ is not None:
+                out.append((+1 if isinstance(e.op, ast.Add) == (r_.value > 0) else -1, r_.value, e))
+            elif l_ is not None and isinstance(e.op, ast.Add):
+                out.append((+1 if l_.value > 0 else -1, l_.value, e))
         elif isinstance(e, ast.Name):
             for d in g.reaching_defs(at, e.id):
                 if isinstance(d, ast.Assign) and len(d.targets) == 1 and isinstance(d.targets[0], ast.Name):
@@ -572,6 +602,7 @@ def bracket_offsets_inward(chk: Check, rule: str, modules: tuple, floor: int = 1
 
     for mn in modules:
         m = S.modules[mn]
+        module_consts = {st.targets[0].id: st.value for st in m.tree.body if isinstance(st, ast.Assign) and len(st.targets) == 1 and isinstance(st.targets[0], ast.Name) and tiny(st.value)}
         for q, f in m.funcs.items():
             if not isinstance(f.node, (ast.FunctionDef, ast.AsyncFunctionDef)):
                 continue
@@ -927,3 +958,43 @@ def imaginary_dispatch_strict(chk: Check, rule: str, cls_name: str = "PotentialT
     chk.ob(rule, f"src/WallGo/PotentialTools/effectivePotentialNoResum.py", "the zero-temperature and the thermal piece test the masses the same way", len(set(shapes.values())) == 1,
            str(shapes), key="strict-negative|siblings")
     chk.floor(rule, 3)
+
+
+# ------------------------------------------------------------------------------------------------ a label is stored together with the data it describes
+def label_stored_with_data(chk: Check, rule: str, cls_name: str, label: str, data: tuple, allowed: tuple = ("__init__",)) -> None:
+    """`self.<label>` says in which representation `self.<data>` is held (the basis of polynomial coefficients).  A method that re-assigns the label
+    must be one that re-assigns the data too (it transforms them), except the constructor.  Writing the label alone -- e.g. to
+    "restore what the caller saw" after an internal change of basis -- leaves an object whose label lies about its contents: the first use is
+    still right, every later evaluation / integration / change of basis is wrong."""
+    S = chk.src
+    ci = S.cls(cls_name)
+    cnt = 0
+    for mname, mf in sorted(ci.methods.items()):
+        if not isinstance(mf.node, (ast.FunctionDef, ast.AsyncFunctionDef)):
+            continue
+        g = None
+        stores = [x for x in own_nodes(mf.node) if isinstance(x, (ast.Assign, ast.AugAssign, ast.AnnAssign))
+                  and any(isinstance(y, ast.Attribute) and isinstance(y.ctx, ast.Store) and y.attr == label and isinstance(y.value, ast.Name) and y.value.id == "self"
+                          for t in (x.targets if isinstance(x, ast.Assign) else [x.target]) for y in ast.walk(t))]
+        if not stores:
+            continue
+        chk.touch(mf.name)
+        cnt += 1
+        if mname in allowed:
+            chk.ob(rule, mf.where(), f"{cls_name.split(':')[-1]}.{mname} sets `{label}` when it sets up the object", True, key=f"label|{mname}")
+            continue
+        g = CFG(mf.node)
+
+        def data_store(q) -> bool:
+            return isinstance(q, (ast.Assign, ast.AugAssign, ast.AnnAssign)) and any(
+                isinstance(y, ast.Attribute) and isinstance(y.ctx, ast.Store) and y.attr in data and isinstance(y.value, ast.Name) and y.value.id == "self"
+                for t in (q.targets if isinstance(q, ast.Assign) else [q.target]) for y in ast.walk(t))
+
+        # the method that re-labels is one that transforms the data itself (the transform may be conditional: nothing to do when the label is unchanged)
+        transforms = any(data_store(q) for q in g.nodes if isinstance(q, ast.AST))
+        bad = [] if transforms else list(stores)
+        chk.ob(rule, mf.where(), f"{cls_name.split(':')[-1]}.{mname} re-assigns `{label}` only together with the data it describes ({', '.join(data)})", not bad,
+               "; ".join(f"line {st.lineno}: `{n(st)[:50]}` in a method that never stores the data" for st in bad), key=f"label|{mname}")
+    if cnt < 2:
+        raise AnchorMissing(f"{cls_name}: stores of self.{label} not found")
+    chk.floor(rule, 2)
